@@ -129,3 +129,34 @@ fn fe_equality_is_field_equality() { check_equality() }
 #[kani::proof]
 #[kani::unwind(41)]
 fn fe_equality_is_field_equality_32() { check_equality() }
+
+// ---- the views of a scalar that the two scalar multiplications consume (C13: signed radix-16 digits start from nibbles();
+// C14: the sliding-window recoding starts from bits()): for every 32-byte encoding b (all 2^256), to_bytes(from_bytes(b)) == b,
+// bits()[i] is bit i of b for all 256 positions, nibbles()[j] is the j-th 4-bit group of b for all 64 positions
+fn check_scalar_views() {
+    let b: [u8; 32] = kani::any();
+    let s = Scalar::from_bytes(&b);
+    let back = s.to_bytes();
+    let mut i = 0;
+    while i < 32 {
+        assert!(back[i] == b[i], "to_bytes inverts from_bytes");
+        i += 1;
+    }
+    let bits = s.bits();
+    let i: usize = kani::any();
+    kani::assume(i < 256);
+    assert!(bits[i] == ((b[i / 8] >> (i % 8)) & 1) as i8, "bits()[i] is bit i of the encoding");
+    let nib = s.nibbles();
+    let j: usize = kani::any();
+    kani::assume(j < 64);
+    assert!(nib[j] == ((b[j / 2] >> (4 * (j % 2))) & 15) as i8, "nibbles()[j] is nibble j of the encoding");
+    kani::cover!(true);
+}
+// @harness props=C13,C14,C15,C17 kind=full tier=quick build=default timeout=900
+#[kani::proof]
+#[kani::unwind(258)]
+fn scalar_views_are_the_encoding() { check_scalar_views() }
+// @harness props=C13,C14,C17 kind=full tier=quick build=force32 timeout=900
+#[kani::proof]
+#[kani::unwind(258)]
+fn scalar_views_are_the_encoding_32() { check_scalar_views() }
